@@ -21,6 +21,7 @@ CONSTANTS
   Batches = {1, 4}
   Alphabet = "classic"
   FwdImpl = "plain"
+  ForkImpl = "own"
   ExpImpl = "fresh"
   TupMode = "one"
   WType = "pl"
